@@ -118,6 +118,9 @@ contours whose only `move` is the first point and which do not end with off-curv
 def ReversibleShape (pts : List Point) : Prop :=
   (isOpen pts = false ∧ noMove pts = true) ∨ (isOpen pts = true ∧ noInnerMove pts = true ∧ endsOnCurve pts = true)
 
+instance (pts : List Point) : Decidable (ReversibleShape pts) := by
+  unfold ReversibleShape; infer_instance
+
 /-- what stays attached to a point when a contour is reversed or rotated: everything but the segment type -/
 def Point.core (p : Point) : Pt × Bool × Option String × Option String := (p.pt, p.smooth, p.name, p.ident)
 
@@ -145,6 +148,40 @@ def Glyph.fresh (g : Glyph) : Prop := ∀ c ∈ g.contours, c.bnd = none ∧ c.c
 def Op.fresh : Op → Prop
   | .newGlyph _ g => g.fresh
   | _ => True
+
+/-! ## Example objects (used by the non-vacuity examples in Props/C17.lean) -/
+
+namespace Ex
+
+def P (x y : Rat) (t : Option Seg) : Point := { pt := ⟨x, y⟩, seg := t }
+
+/-- closed: a line, a cubic with two handles, a quadratic with an implied on-curve point; dyadic coordinates -/
+def closed : List Point :=
+  [P 0 0 (some .line), P 100 0 (some .line), P 150 (1 / 2) none, P 150 80 none, P 100 100 (some .curve),
+   P 60 140 none, P 20 140 none, P 0 100 (some .qcurve)]
+
+/-- open: move, line, cubic -/
+def opened : List Point :=
+  [P 0 0 (some .move), P 50 60 (some .line), P 70 10 none, P 90 (-5 / 8) none, P 100 0 (some .curve)]
+
+/-- a polygon -/
+def square : List Point := [P 10 20 (some .line), P 110 20 (some .line), P 110 120 (some .line), P 10 120 (some .line)]
+
+/-- a glyph with two contours and a vertical origin, and a glyph referencing it through a flip -/
+def base : Glyph := { width := 500, height := 700, vo := some 650, contours := [{ points := closed }, { points := square }],
+                      anchors := [⟨5, 5⟩] }
+def composite : Glyph :=
+  { width := 300, height := 0, contours := [{ points := square }],
+    components := [{ base := "base", t := ⟨-1, 0, 0, 1, 40, -7 / 2⟩ }] }
+def world : World := { glyphs := [("base", base), ("comp", composite)] }
+
+/-- a history: read, move (patches the caches), read, reverse, rotate, set margins -/
+def history : List Op :=
+  [.newGlyph "base" base, .newGlyph "comp" composite, .cBounds "base" 0, .cCpb "base" 0, .cArea "base" 0,
+   .cMove "base" 0 (3 / 2) (-4), .cBounds "base" 0, .gBounds "comp", .setLeft "comp" 25, .gMargins "comp",
+   .cReverse "base" 1, .cSetStart "base" 1 (-1), .setTop "base" 30, .gMove "comp" 1 1]
+
+end Ex
 
 end Geom
 end DefconModel
